@@ -32,19 +32,19 @@ func mergeElem(vs ...Value) ElemV {
 
 // stState is the token-count state of one stage while its body is interpreted.
 type stState struct {
-	sent     map[*Stream]*lin.Expr
-	lead     map[*Stream]*lin.Expr
-	outs     []*Stream
-	gates    []*lin.Expr // the rest of the body runs only if every gate >= 1
-	closed   map[*Stream]bool
-	closedAll map[*Stream]bool
+	sent          map[*Stream]*lin.Expr
+	lead          map[*Stream]*lin.Expr
+	outs          []*Stream
+	gates         []*lin.Expr // the rest of the body runs only if every gate >= 1
+	closed        map[*Stream]bool
+	closedAll     map[*Stream]bool
 	deferredClose map[*Stream]bool
-	ins      map[*Stream]*StageIn
-	depLead  *lin.Expr
-	order    int
-	drains   int
-	inDefer  bool
-	filterN  int
+	ins           map[*Stream]*StageIn
+	depLead       *lin.Expr
+	order         int
+	drains        int
+	inDefer       bool
+	filterN       int
 }
 
 func (it *Interp) state(st *Stage) *stState {
@@ -478,24 +478,24 @@ func (it *Interp) stageOpaqueIf(fr *Frame, x *ast.IfStmt) ctl {
 // Loops.
 
 type loopItem struct {
-	kind     string // "recv", "send", "put", "get"
-	s        *Stream
-	checked  bool
-	drains   []*Stream
-	send     *ast.SendStmt
-	cond     string // "", "pred", "ringfull", "branch"
-	ring     *Object
-	pos      token.Pos
-	fr       *Frame
-	multE    *lin.Expr
-	out      *Stream
+	kind    string // "recv", "send", "put", "get"
+	s       *Stream
+	checked bool
+	drains  []*Stream
+	send    *ast.SendStmt
+	cond    string // "", "pred", "ringfull", "branch"
+	ring    *Object
+	pos     token.Pos
+	fr      *Frame
+	multE   *lin.Expr
+	out     *Stream
 }
 
 type loopCtx struct {
-	items   []*loopItem
-	ok      bool
-	lastOk  types.Object
-	fr      *Frame
+	items  []*loopItem
+	ok     bool
+	lastOk types.Object
+	fr     *Frame
 }
 
 // stageLoop summarises `for v := range c { body }`.
@@ -851,7 +851,6 @@ func (it *Interp) loopAssign(fr *Frame, x *ast.AssignStmt, cur *loopCtx) {
 		}
 	}
 }
-
 
 // scanIf handles branches containing sends.
 func (it *Interp) scanIf(fr *Frame, x *ast.IfStmt, lc *loopCtx) {
@@ -1211,6 +1210,25 @@ func (it *Interp) finishLoop(fr *Frame, bound *lin.Expr, lc *loopCtx, pos token.
 		}
 		if ss.depLead != nil {
 			it.bumpLead(ss, o, lin.Sub(ss.depLead, before))
+		}
+		// elements computed from fill values of an input (fill-tainted prefix)
+		for _, ri := range lc.items {
+			if ri.kind != "recv" || ri.s.Taint == nil {
+				continue
+			}
+			in := ss.ins[ri.s]
+			consBefore := lin.C(0)
+			if in != nil && in.LeadAt != nil && ri.s.Lead != nil {
+				consBefore = lin.Sub(in.LeadAt, ri.s.Lead)
+			}
+			d := lin.Simplify(it.G, lin.Sub(ri.s.Taint, consBefore))
+			cand := When(d, 1, lin.Add(before, d), lin.C(0))
+			if o.Taint == nil {
+				o.Taint = cand
+			} else {
+				o.Taint = lin.Max(o.Taint, cand)
+			}
+			o.Taint = lin.Simplify(it.G, o.Taint)
 		}
 		// a counted loop of sends of a constant before anything else is a fill prefix
 		if nrecv == 0 && bound != nil && lin.ProveEQ(it.G, before, lin.C(0)) {
